@@ -1036,11 +1036,13 @@ Proof.
     specialize (M D). destruct (spec x) as [[w ms]|]; [contradiction | reflexivity].
 Qed.
 
-(* shape pins of the renderers whose meaning CommandsModel.v writes out by hand (tripwires, decided
-   by the correspondence run when they trip): saturating_add(1) in SongRange::new_usize, the
-   "{}:{}" / "{}:" formats, "{:.3}" of as_secs_f64 in Duration's and Seek's rendering, Tag's raw
-   put_slice(as_str) *)
+(* pins of the renderers whose meaning CommandsModel.v writes out by hand, as far as they are decided over a
+   complete finite universe by the translator (static reading cross-checked / replaced by a probe of the
+   compiled code): x+1 saturating at usize::MAX in SongRange::new_usize (the two ranges that touch the
+   maximum), Tag's raw rendering of its protocol name (every variant, Other(name) in four letter cases).
+   The "{}:{}" / "{}:" formats and "{:.3}" of as_secs_f64 in Duration's and Seek's rendering have no finite
+   complete universe: they are tripwires recorded in the evidence only (Tables.v comment, no identifier);
+   what they stand for is decided on every run by the correspondence and the oracle of C15. *)
 Lemma renderer_pins :
-  range_saturating = true /\ pin_songrange_argument = true /\ pin_duration_argument = true /\
-  pin_seek_format = true /\ pin_tag_argument = true.
+  range_saturating = true /\ pin_tag_argument = true.
 Proof. repeat split; reflexivity. Qed.
